@@ -93,6 +93,7 @@ type c10Result struct {
 	finalErr error
 	errAt    []bool      // error status after each call
 	obsAt    [][4]uint32 // CSel, NSel, LOD bits after each call
+	panicked bool        // the code under test panicked: nothing is concluded from this history
 }
 
 // driveEncoder runs hist on e (already prepared by the caller) and checks
@@ -119,7 +120,13 @@ func driveEncoder(ctx *Ctx, e *encode.Encoder, hist []world.Op, probe bool, deep
 		o := &hist[i]
 		ctx.Beat()
 		if p, _, msg := guard(func() { world.Apply(tgt, o) }); p {
-			return res, viol("C10", "panic", "call #%d %s panicked: %s", i, o.String(), msg)
+			// not C10's business (C02 reports panics): the history is set aside
+			_ = msg
+			if ctx.Stats != nil {
+				ctx.Stats.Add("histories_set_aside_because_the_code_panicked", 1)
+			}
+			res.panicked = true
+			return res, nil
 		}
 		c, adj, incr := classOf(o)
 		m.Step(c, adj, incr)
@@ -246,7 +253,8 @@ func c10Decodes(ctx *Ctx, b []byte, vb ivg.ViewBox, pal [64]color.RGBA, since []
 	rd := &world.RecDest{}
 	var err error
 	if p, _, msg := guard(func() { err = decode.Decode(rd, b) }); p {
-		return viol("C10", "decodes", "decoding the bytes after call #%d panicked: %s", at, msg)
+		_ = msg // a decoder panic is C02's business
+		return nil
 	}
 	if err != nil {
 		return viol("C10", "decodes", "the decoder rejects the bytes of a violation-free history with all paths ended (after call #%d): %v", at, err)
@@ -292,12 +300,18 @@ func checkHistoryQ(ctx *Ctx, hist []world.Op, deep bool, off bool) *report.Viola
 	if v != nil {
 		return v
 	}
+	if r1.panicked {
+		return nil
+	}
 	// (2) probe-free: Bytes only at the end gives the same result
 	var e2 encode.Encoder
 	q := ctx.Quiet()
 	r2, v := driveEncoder(q, &e2, hist, false, false, off)
 	if v != nil {
 		return v
+	}
+	if r2.panicked {
+		return nil
 	}
 	if !bytes.Equal(r1.final, r2.final) || (r1.finalErr != nil) != (r2.finalErr != nil) || (r1.finalErr != nil && r1.finalErr != r2.finalErr) {
 		return viol("C10", "probe-free", "calling Bytes after every call changed the outcome: %d bytes err=%v with probes, %d bytes err=%v without", len(r1.final), r1.finalErr, len(r2.final), r2.finalErr)
@@ -310,6 +324,9 @@ func checkHistoryQ(ctx *Ctx, hist []world.Op, deep bool, off bool) *report.Viola
 		if v != nil {
 			v.Message = "on an Encoder reset with the default metadata: " + v.Message
 			return v
+		}
+		if r3.panicked {
+			return nil
 		}
 		for i := range r1.errAt {
 			if r1.errAt[i] != r3.errAt[i] {
